@@ -44,6 +44,7 @@ Inductive ares :=
 | RsLeaves (l : list (path * Z))
 | RsUnit
 | RsQErr                        (* the visitor's error came back *)
+| RsSwallowed                   (* the visitor returned an error but the traversal returned nil *)
 | RsPanic
 | RsHang.
 
@@ -71,6 +72,7 @@ Definition spec_step (f : flat) (o : aop) (r : ares) : list flat :=
   | AHVal _, RsVal _ => [f]       (* a retained handle may return any earlier value *)
   | AQuery _, RsLeaves _ => [f]   (* judged by the weak specification below *)
   | AQueryErr _, RsQErr => [f]    (* an aborted query reports nothing *)
+  | AQueryErr _, RsSwallowed => [f] (* not a matter of C10's statement; the model disagrees (tag 1) *)
   | AQueryErr _, RsLeaves _ => [f] (* fewer leaves than the visitor tolerates: it completed *)
   | _, _ => []
   end.
